@@ -23,30 +23,16 @@ PROP = "C18"
 def _depth(task, f):
     return nesting_depth(task["fmt"], task["data"]) >= 100
 
-def _none_deref(task, f):
-    return "'NoneType' object has no attribute" in f["msg"]
-
 def _marked_section(task, f):
     return b"<!" in task["data"]
-
-def _br_styled(task, f):
-    return re.search(rb"<br\b[^>]*\s[\w:.-]+\s*=|<br\b[^>]*>\s*<set\b", task["data"]) is not None
 
 # id, regex over "<Type>|<site>" (site = innermost-first ttconv frames with qualified names), stages it may surface in
 # (regex over the stage label), optional predicate on the input
 FINDINGS = [
     ("ruby-inactive-annotation", r"^ValueError\|model\.py:(Ruby|Rtc)\.push_children<-isd\.py:(ISD\._process_element|_clone_doc_with_one_region\._copy_content_element)<-", r".*", None),
     ("recursion-deep-nesting", r"^RecursionError\|", r".*", _depth),
-    ("vtt-stray-end-tag", r"^(TypeError\|model\.py:(Div|Body)\.push_child<-|AttributeError\|)vtt/reader\.py:_TextCueParser\.(_handle_string|_handle_starttag|_handle_ts|_handle_endtag|_make_span)<-", r"^read$", None),
     ("vtt-ruby-structure", r"^(RuntimeError\|(model\.py:\w+\.push_child<-)?|TypeError\|model\.py:(Span|Rt|Rb|Rbc|Rtc|P)\.push_child<-)vtt/reader\.py:_TextCueParser\.", r"^read$", None),
-    ("vtt-percentage-overflow", r"^OverflowError\|vtt/reader\.py:parse_vtt_pct<-", r"^read$", None),
-    ("srt-font-color-without-value", r"^TypeError\|utils\.py:parse_color<-srt/reader\.py:_TextParser\.handle_starttag<-", r"^read$", None),
-    ("imsc-content-inside-set", r"^TypeError\|model\.py:ContentElement\.set_space<-imsc/elements\.py:ContentElement\.ParsingContext\.process_space_attribute<-", r"^read$", None),
     ("srt-markup-declaration", r"^AssertionError\|srt/reader\.py:to_model$", r"^read$", _marked_section),
-    ("isd-style-on-br", r"^(ValueError|AttributeError)\|(isd\.py:_compute_length<-)?isd\.py:StyleProcessors\.\w+\.compute<-isd\.py:ISD\._compute_styles<-", r".*", _br_styled),
-    ("stl-zero-row-count", r"^ZeroDivisionError\|stl/datafile\.py:DataFile\.process_tti_block<-", r"^read$", None),
-    ("scc-no-caption-to-process", r"^AttributeError\|scc/context\.py:SccContext\.\w+<-(scc/context\.py:SccContext\.\w+<-)*scc/line\.py:SccLine\.process<-", r"^read$", _none_deref),
-    ("negative-begin-unwritable", r"^ValueError\|time_code\.py:ClockTime\.from_seconds<-imsc/attributes\.py:to_time_format<-", r"imsc", None),
     ("writer-time-overflow", r"^OverflowError\|((srt/writer\.py:SrtContext|vtt/writer\.py:VttContext)\.add_isd<-|time_code\.py:\w+\.\w+<-(time_code\.py:\w+\.\w+<-)*imsc/attributes\.py:to_time_format<-)", r"(srt|vtt|imsc)", None),
     ("cue-shorter-than-a-millisecond", r"^ValueError\|(srt/paragraph\.py:SrtParagraph|vtt/cue\.py:VttCue)\.to_string<-", r"(srt|vtt)", None),
 ]
@@ -386,7 +372,7 @@ def main():
         "the claim is partial by nature: stack depth, memory and termination of expat / html.parser are not modelled; the theorems establish totality of the transcribed guards only",
         "exception classes: XML-layer errors raised by xml.etree before the IMSC reader runs count as 'XML parse error'; UnicodeDecodeError counts wherever the decoder raises it; "
         "RuntimeError, ZeroDivisionError, OverflowError, LookupError, NameError and a time-out count as internal (not documented)",
-        "findings are matched by exception type + innermost ttconv frames (qualified function names) + stage, for RecursionError, styled br and '<!' declarations additionally by a predicate on the input",
+        "findings are matched by exception type + innermost ttconv frames (qualified function names) + stage, for RecursionError and '<!' declarations additionally by a predicate on the input",
     ]
     return run.finish(["harness/c18gen.py (generators, mutators), harness/c18run.py (classification of exceptions, traceback sites, pipeline driver)",
                        "harness/guards18.py (literal printer of inputs and of the recorded observations, RLE of STL bytes)",
